@@ -531,7 +531,7 @@ func (g *commonGen) fill(w *World, kind string, b int) Step {
 		st.A = g.r.Intn(3)
 		st.Str = map[string]string{"provider": prov, "code": "fresh"}
 		st.Sec = g.secretFor(w, kind, st.A, b)
-		switch g.r.Intn(10) {
+		switch g.r.Intn(12) {
 		case 0:
 			st.Str["error"] = "access_denied"
 		case 1:
@@ -545,6 +545,11 @@ func (g *commonGen) fill(w *World, kind string, b int) Step {
 		case 5: // state of another browser
 			ob := g.r.Intn(len(w.Browsers))
 			st.Sec = &SecretRef{Kind: "literal", Lit: w.Browsers[ob].Session["oauth2_state"]}
+		case 7, 8: // a near miss of the state this browser's session holds: a prefix, an extension, another case
+			if cur := w.Browsers[b].Session["oauth2_state"]; cur != "" {
+				near := []string{cur[:len(cur)/2], cur[:1], cur[:len(cur)-1], cur + "x", cur + "=", strings.ToUpper(cur), " " + cur}
+				st.Sec = &SecretRef{Kind: "literal", Lit: near[g.r.Intn(len(near))]}
+			}
 		case 6: // a code obtained at another provider delivered to this provider's callback route
 			if len(c.Providers) > 1 {
 				for _, p := range c.Providers {
